@@ -1216,3 +1216,117 @@ def c10(tier, seed):
                         "(generate_graphs), one episode, rollout over the whole horizon, compared on the steps both systems execute",
                         "ranges with max-min a power of two so that alpha and min+alpha*(max-min) are exact in float32 (a tie is decided by exact comparison)"]
     return rep.finish()
+
+
+# ================================================================================================
+# C08 (model part)  sizing rule of the output ring buffers: BufferSize.tla enumerated, replayed on Timings.get_buffer_sizes
+# ================================================================================================
+def _buffer_schedules(G, ws="{1, 2}", workers=8):
+    cfgp = os.path.join(tlc.SPECS, "BufferSize_run.cfg")
+    with open(cfgp, "w") as f:
+        f.write(f"SPECIFICATION Spec\nCONSTANTS\n  G = {G}\n  Ws = {ws}\n  MaxN = {G + 3}\nINVARIANT FormulaSafe\nINVARIANT Emit\nCHECK_DEADLOCK FALSE\n")
+    try:
+        r = tlc.run_tlc("BufferSize", cfg="BufferSize_run.cfg", workers=workers, timeout=3000, heap="6g")
+    finally:
+        os.remove(cfgp)
+    st = r["stats"]
+    if st["error"] or not st["finished"] or st["invariant_violated"]:
+        raise common.MachineryError("BufferSize (the sizing rule as transcribed is not safe on the model, or TLC failed): " + r["out"][-2500:])
+    out = []
+    for line in r["out"].splitlines():
+        line = line.strip()
+        if line.startswith('"BUF|'):
+            out.append(json.loads(line[5:-1].replace('\\"', '"')))
+    return out, st
+
+
+def buffer_rule_job(job):
+    """Each enumerated schedule -> a synthetic rex Timings object (producer kind P, consumer kind C, two generations per partition) ->
+    the real Timings.get_buffer_sizes()."""
+    import numpy as onp
+
+    from rex import base
+
+    res = []
+    for s in job["schedules"]:
+        pw, last, W = s["pw"], s["last"], s["W"]
+        G = len(pw)
+        steps = (G + 1) // 2
+        slots = {}
+        written = -1
+        wr_before = []
+        for p in range(G):
+            wr_before.append(written)
+            if pw[p]:
+                written += 1
+        for g in (0, 1):
+            run_p = onp.zeros((1, steps), bool)
+            seq_p = onp.zeros((1, steps), int)
+            run_c = onp.zeros((1, steps), bool)
+            seq_c = onp.zeros((1, steps), int)
+            win = onp.zeros((1, steps, W), int)
+            nread = 0
+            for p in range(G):
+                st_, gg = divmod(p, 2)
+                if gg != g:
+                    continue
+                if pw[p]:
+                    run_p[0, st_] = True
+                    seq_p[0, st_] = wr_before[p] + 1
+                if last[p] != -99:
+                    run_c[0, st_] = True
+                    seq_c[0, st_] = sum(1 for q in range(p) if last[q] != -99)
+                    win[0, st_, :] = [max(last[p] - W + j + 1, -1) for j in range(W)]
+            z = onp.zeros((1, steps))
+            slots[f"sP_{g}"] = base.SlotVertex(seq=seq_p, ts_start=z, ts_end=z, windows={}, run=run_p, kind="P", generation=g)
+            slots[f"sC_{g}"] = base.SlotVertex(seq=seq_c, ts_start=z, ts_end=z,
+                                               windows={"P": base.Window(seq=win, ts_sent=onp.zeros(win.shape), ts_recv=onp.zeros(win.shape))},
+                                               run=run_c, kind="C", generation=g)
+        try:
+            sizes = base.Timings(slots=slots).get_buffer_sizes()
+            real = int(max(sizes["P"])) if len(sizes["P"]) else None
+            res.append(dict(real=real))
+        except Exception as e:  # noqa
+            res.append(dict(error=repr(e)[:300]))
+    return dict(results=res)
+
+
+def c08_buffer_rule(rep, quick):
+    scheds, st = _buffer_schedules(4 if quick else 5)
+    rep.add_tlc(st)
+    chunks = [scheds[i::16] for i in range(16)]
+    jobs = [dict(kind="pyfunc", module="harness.checks.smallchecks", func="buffer_rule_job", id=f"c08rule{i}", schedules=ch, timeout=1800) for i, ch in enumerate(chunks) if ch]
+    results = common.run_jobs(jobs)
+    stats = dict(schedules=len(scheds), model_states=st["distinct"], equal_to_rule=0, refused_by_rex=0, tight=0, drift=0, unsafe=0)
+    for res, ch in zip(results, [c for c in chunks if c]):
+        if not res.get("ok"):
+            raise common.MachineryError(res.get("error", "")[-3000:])
+        for s, r in zip(ch, res["results"]):
+            rep.cov["evaluations"] += 1
+            rep.cov["traces_validated_against_impl"] += 1
+            if "error" in r:
+                raise common.MachineryError(f"get_buffer_sizes raised on a synthetic Timings: {r['error']} for {s}")
+            real = r["real"]
+            if real is None or real < 1:
+                stats["refused_by_rex"] += 1      # get_output_buffer refuses a non-positive size (or pads it): nothing is executed with it
+                if s["rex"] != -99 and s["rex"] >= 1:
+                    stats["drift"] += 1
+                continue
+            if real < s["safe"]:
+                stats["unsafe"] += 1
+                rep.violation(dict(kind="buffer_rule_too_small"), dict(kind="buffer_rule", schedule=s, real=real),
+                              text=f"Timings.get_buffer_sizes() gives {real} for a schedule that needs {s['safe']} (a scheduled reader would find an overwritten or "
+                                   f"never-written slot): writes at {s['pw']}, newest window entry per position {s['last']} (-99: no read), window {s['W']}")
+                continue
+            if real == s["rex"]:
+                stats["equal_to_rule"] += 1
+            else:
+                stats["drift"] += 1
+            if real == s["safe"]:
+                stats["tight"] += 1
+            rep.nontrivial(json.dumps(s, sort_keys=True))
+    if stats["drift"]:
+        rep.note(f"MODEL-DRIFT property=C08: {stats['drift']} schedules where get_buffer_sizes() differs from the rule transcribed in BufferSize.tla (still safe)")
+    rep.cov["buffer_rule"] = stats
+    rep.cov.setdefault("model_runs", []).append(dict(module="BufferSize", schedules=len(scheds), invariant="FormulaSafe", states=st["distinct"]))
+    return stats
